@@ -580,7 +580,7 @@ MANIFEST_TEXT = {
         "text": "Composition of row-view contracts on the real code: page numbers form consecutive intervals covering all rows; within a page every "
                 "row is emitted exactly once, in order; one Row per frame row with cells in column order whose text is '' for null and str(value) otherwise; "
                 "the row emitter keeps cell order and puts exactly one delimiter space before the text.",
-        "note": "The strategy/post-processing/column-removal carriers are named as not yet under contract; polars slicing is an assumed contract.",
+        "note": "Strategy, post-processing, column-removal and section carriers are under contract (units Paginate*, ApplyDataPostProcessing, PrepareFrame, EncodeBodySection, MultiSection); the component constructors pass every caller keyword through (units *Init); polars slicing is an assumed contract.",
     },
     "C05": {
         "text": "Loop invariant with ghost heading state on the real _render_body (1, 2 and 3 page_by levels): at every emission of data rows each "
@@ -596,14 +596,14 @@ MANIFEST_TEXT = {
                 "before a break unless a table-rendered footnote/source on that page takes it, page.border_last at the document end unless a "
                 "table-rendered component takes it, every other edge = the user's broadcast value; the attributes are a fresh copy.",
         "note": "The component override reaches encode_footnote / encode_source through render and is applied to a copy (units RenderPage, "
-                "EncodeFootnote, EncodeSource). The header-row top border (_render_column_headers) is named as not yet under contract.",
+                "EncodeFootnote, EncodeSource). The header-row top border is unit RenderColumnHeaders; first / last edges of multi-section documents are unit MultiSection.",
     },
     "C09": {
         "text": "Every formatting field handed to the cell/text/border/row constructors in the real _encode equals the attribute's broadcast value at "
                 "(i + row_offset, j) (row attributes at column 0), broadcast lookup is value[r mod R][c mod C], the renderer passes each segment's "
                 "page-relative start as row_offset, and the emitters write every such field (incl. border width and colour) into the output.",
         "note": "The binding is proved relative to the page's attribute object; its relation to the ORIGINAL row index across page breaks and the "
-                "column slicing after page_by/subline_by removal are named as not yet under contract.",
+                "column slicing after page_by/subline_by removal are units PaginationBorders and PrepareFrame (the generic attribute is enumerated under a symbolic field name); attribute normalisation is unit ToNestedList.",
     },
     "C03": {
         "text": "Proved on the real code for any table size: the per-page reservation counts exactly the subline heading, the headers that have "
@@ -633,7 +633,7 @@ MANIFEST_TEXT = {
                 "every component (break, title, subline, subline heading, figure, column headers, page-top headings, body, footnote, source) is present "
                 "exactly when its placement condition holds for the page, at most once, in that fixed order; strategies set needs_header / first / last.",
         "note": "Floats are reals, round() is a deterministic nearest-integer function. RenderPage abstracts each callee's chunks by one marker; its "
-                "2-level page_by variant runs in the thorough tier. The figure-only and multi-section page loops are named as not yet under contract.",
+                "2-level page_by variant runs in the thorough tier. Figure documents: unit FigureOnly; multi-section documents are outside this property's quantifier.",
     },
     "C08": {
         "text": "Unbounded proof on the real Utils._col_widths (any column count, any positive widths): boundaries are exactly "
@@ -642,7 +642,7 @@ MANIFEST_TEXT = {
                 "column headers are laid out on the table width with exactly one relative width per header cell (inherited full-table widths are "
                 "replaced by the displayed columns' widths); table-rendered footnote / source span the table width.",
         "note": "Real arithmetic instead of IEEE doubles. The width vectors produced by document construction (RTFDocument.__init__) and column "
-                "removal (prepare_dataframe_for_body_encoding, _encode_body_section) are named as not yet under contract; their results are assumed.",
+                "removal (prepare_dataframe_for_body_encoding, _encode_body_section) are under contract (units DocumentInit, PrepareFrame, EncodeBodySection).",
     },
     "C10": {
         "text": "One symbolic code point stands for all 1.1M scalar values: every appended piece is ASCII, every \\u parameter lies in "
